@@ -3034,7 +3034,7 @@ class QuaternionArray(np.ndarray):
                         [ 0.1862619 , -0.38421818,  0.5260265 , -0.73551276]])
         """
         q_diff = np.diff(self.array, axis=0)
-        jumps = np.nonzero(np.where(np.linalg.norm(q_diff, axis=1)>1, 1, 0))[0]+1
+        jumps = np.nonzero(np.where(np.linalg.norm(q_diff, axis=1)>np.sqrt(2.0), 1, 0))[0]+1  # |p-q|^2 = 2-2(p.q) > 2 <=> p.q < 0
         if len(jumps) % 2:
             jumps = np.append(jumps, [len(q_diff)+1])
         jump_pairs = jumps.reshape((len(jumps)//2, 2))
